@@ -136,6 +136,9 @@ func caseHash(c *Case) uint64 {
 	binary.LittleEndian.PutUint64(m[:], uint64(int64(c.Status)))
 	binary.LittleEndian.PutUint64(m[8:], uint64(len(c.Body)))
 	meta := c.Profile + "\x00" + c.Link + "\x00" + c.Location
+	if c.Conf != "" {
+		meta += "\x00" + c.Conf
+	}
 	a := crc32.Update(crc32.Update(crc32.Checksum(m[:], castagnoli), castagnoli, []byte(meta)), castagnoli, c.Body)
 	b := crc32.Update(crc32.Update(crc32.ChecksumIEEE(m[:]), crc32.IEEETable, []byte(meta)), crc32.IEEETable, c.Body)
 	return uint64(a)<<32 | uint64(b)
